@@ -66,3 +66,8 @@ package telem
 //@ pure func NewAlignment(domainIdx uint32, sampleIdx uint32) Alignment
 //@ pure func (a Alignment) AddSamples(samples uint32) Alignment
 //@ pure func (a Alignment) DomainIndex() uint32
+//@ pure func (a Alignment) SampleIndex() uint32
+//@ # number of samples of a series (length of the data over the density; variable-length types
+//@ # count separators): uninterpreted for callers that only branch on it
+//@ pure func (s Series) Len() int64
+//@ inline func (f Frame[K]) RawSeriesAt(i int) Series
